@@ -733,7 +733,9 @@ static cfg_t *do_init(int client, int schema, int flags, const json &op)
 	release_built(b, poison);
 	if (cfg && !E->res.died) {
 		E->any_root_created = true;
-		LIBCALL(EMPTY, cfg_set_error_function(cfg, sim_errfunc));
+		// "noerrfn": the application installs no error function for this context (diagnostics go to stderr, unseen)
+		if (!op.value("noerrfn", 0))
+			LIBCALL(EMPTY, cfg_set_error_function(cfg, sim_errfunc));
 	}
 	(void)client;
 	return cfg;
